@@ -121,7 +121,7 @@ def bounded(tier, seed):
 
 # ======================================================================================================= proved layer
 import z3
-from pyvc.values import Ref, Seq, Tup, Map, SBool, SRef, SSeq, SSet, SMap, CDict, Set, Rec, CList, Loc, ExcVal, fresh_name, zbool, zint, Unsupported
+from pyvc.values import Ref, Seq, Tup, Map, SBool, SRef, SSeq, SSet, SMap, SUnion, CDict, Set, Rec, CList, Loc, ExcVal, fresh_name, zbool, zint, Unsupported
 from pyvc.verify import Unit
 from pyvc.engine import LoopSpec
 from pyvc import builtins as B
@@ -306,7 +306,7 @@ UPS02 = Ref("UPState02", pycls=_up02.model.UPState)
 IA02 = Ref("InstantaneousAction02", pycls=_up02.model.InstantaneousAction)
 GA02b.null = z3.Const("GroundedAction02.None", GA02b.z3sort())
 SIM02.null = z3.Const("SimulatedEffect02.None", SIM02.z3sort())
-GA02b.fields.update({"simulated_effect": SIM02, "effects": Seq(EFF02)})
+GA02b.fields.update({"simulated_effect": SIM02, "effects": Seq(EFF02), "preconditions": Seq(FN02b)})
 SIM02.fields["fluents"] = Seq(FN02b)
 PB02.fields["environment"] = ENV02b
 ENV02b.fields["expression_manager"] = MG02
@@ -322,6 +322,7 @@ class ApplyUnsafe(Unit):
     doc = ("the fold of _evaluate_effect over all expanded effects: pre-state, same containers, the kernel sees every value reported so far; make_child "
            "gets exactly the reported values on the pre-state; state invariants are evaluated on the new state; any numbers of effects / invariants")
     allowed_raises = (_Invalid02, _Conflict02, _Missing02)
+    QN, LOOPS = QNAU, (1, 2, 3)
 
     def target(self):
         return _ss.UPSequentialSimulator.apply_unsafe
@@ -380,18 +381,28 @@ class ApplyUnsafe(Unit):
         def make_child(e, st, sv, a, k):
             st.oblige("make_child is applied to the pre-state", sv.z == unit._state.z)
             st.oblige("make_child receives exactly the reported values", same_as_reported(e, st, a[0]))
-            st.oblige("every expanded effect of every effect was handed to the kernel", unit._all_handed(e, st, unit._effs.n))
+            if not st.ghost.get("conflict"):     # (after a reported conflict the fold stops where it is: full-check path only)
+                st.oblige("every expanded effect of every effect was handed to the kernel", unit._all_handed(e, st, unit._effs.n))
             st.ghost["child_made"] = st.ghost.get("child_made", 0) + 1
             yield st, unit._new
         UPS02.methods["make_child"] = make_child
 
         def evaluate(e, st, sv, a, k):
-            st.oblige("state invariants are evaluated on the NEW state", a[1].z == unit._new.z if isinstance(a[1], SRef) else z3.BoolVal(False))
+            # the value of the expression IN THE STATE IT IS EVALUATED IN (post-conditions speak about the state they mean)
             r = Ref("BoolConstant02").fresh("value")
-            st.assume(B._uf("BoolConstant02.bool_constant_value()", Ref("BoolConstant02").z3sort(), z3.BoolSort())(r.z) == INVOK(a[0].z, unit._new.z))
+            sz = a[1].z if isinstance(a[1], SRef) else UPS02.fresh("not_a_state").z
+            BC = Ref("BoolConstant02").z3sort()
+            # StateEvaluator.evaluate returns a constant (its own assert; Boolean for a Boolean expression: C15)
+            st.assume(B._uf("BoolConstant02.is_bool_constant()", BC, z3.BoolSort())(r.z),
+                      B._uf("BoolConstant02.bool_constant_value()", BC, z3.BoolSort())(r.z) == INVOK(a[0].z, sz))
             yield st, r
         SE02.methods["evaluate"] = evaluate
         Ref("BoolConstant02").observers["bool_constant_value"] = ((), B.Bool)
+        Ref("BoolConstant02").observers["is_bool_constant"] = ((), B.Bool)
+        self._install_loops(eng)
+
+    def _install_loops(self, eng):
+        unit = self
 
         def uvmap(L):
             c = L.updated_values
@@ -414,7 +425,7 @@ class ApplyUnsafe(Unit):
         def i_inv(L):
             c = L.updated_values
             return [("updated_values holds exactly the values reported so far", unit._same(L._eng, L.st, c, L.field(unit._w, "_g_reported"))),
-                    ("... and the expansions of the current effect handled so far", handed_upto(L, zint(L._loop1_i), zint(L._i)))]
+                    ("... and the expansions of the current effect handled so far", handed_upto(L, zint(getattr(L, f"_loop{unit.LOOPS[0]}_i")), zint(L._i)))]
 
         def v_inv(L):
             j = z3.Int(fresh_name("j"))
@@ -422,9 +433,9 @@ class ApplyUnsafe(Unit):
                      z3.ForAll([j], z3.Implies(z3.And(0 <= j, j < zint(L._i)), INVOK(z3.Select(unit._invs.arr, j), unit._new.z))))]
         tys = {"updated_values": Map(FN02b, FN02b), "assigned_fluent": Set(FN02b), "e": EFF02, "effect": EFF02, "fluent": FN02b, "value": FN02b, "f": FN02b, "v": FN02b,
                "si": FN02b, "self._g_reported": Map(FN02b, FN02b), "self._g_handed": Set(EFF02)}
-        eng.loops[(QNAU, 1)] = LoopSpec(o_inv, modifies=["updated_values", "assigned_fluent", "e", "effect", "fluent", "value", "self._g_reported", "self._g_handed"], types=tys)
-        eng.loops[(QNAU, 2)] = LoopSpec(i_inv, modifies=["updated_values", "assigned_fluent", "effect", "fluent", "value", "self._g_reported", "self._g_handed"], types=tys)
-        eng.loops[(QNAU, 3)] = LoopSpec(v_inv, modifies=["si"], types=tys)
+        eng.loops[(self.QN, self.LOOPS[0])] = LoopSpec(o_inv, modifies=["updated_values", "assigned_fluent", "e", "effect", "fluent", "value", "self._g_reported", "self._g_handed"], types=tys)
+        eng.loops[(self.QN, self.LOOPS[1])] = LoopSpec(i_inv, modifies=["updated_values", "assigned_fluent", "effect", "fluent", "value", "self._g_reported", "self._g_handed"], types=tys)
+        eng.loops[(self.QN, self.LOOPS[2])] = LoopSpec(v_inv, modifies=["si"], types=tys)
 
     def _same(self, eng, st, c, g):
         if isinstance(c, SMap):
@@ -468,10 +479,91 @@ class ApplyUnsafe(Unit):
         st.oblige("every state invariant holds in the returned state", allok)
 
 
+QNGUC = "unified_planning.engines.sequential_simulator.UPSequentialSimulator.get_unsatisfied_conditions"
+from unified_planning.engines.sequential_simulator import InapplicabilityReasons as _Reasons
+
+
+class FullCheck(ApplyUnsafe):
+    """get_unsatisfied_conditions(full_check=True): the SAME fold discipline as apply_unsafe (so both hand the kernel the same sequence of effects with
+    the same bookkeeping), and the verdict: reason is None exactly when every precondition holds in the pre-state, the kernel never reports a conflict
+    and every state invariant holds in the state made from the reported values"""
+    name = "UPSequentialSimulator.get_unsatisfied_conditions[full_check]"
+    doc = ("same fold of the kernel as apply_unsafe; reason None iff preconditions hold in the pre-state, no conflict, state invariants hold in the state "
+           "built from the reported values (any numbers of preconditions / effects / invariants; early termination symbolic)")
+    allowed_raises = (_Invalid02, _Missing02)
+    QN, LOOPS = QNGUC, (2, 3, 4)
+
+    def target(self):
+        return _ss.UPSequentialSimulator.get_unsatisfied_conditions
+
+    def configure(self, eng):
+        super().configure(eng)
+        unit = self
+        # the kernel's conflict is remembered (ghost) so that the verdict can be stated
+        inner = eng.contracts[_ss.UPSequentialSimulator._evaluate_effect]
+
+        def kernel(e, st, a, k):
+            for s2, r in inner(e, st, a, k):
+                if isinstance(r, ExcVal):
+                    s2.ghost["conflict"] = True
+                yield s2, r
+        eng.contracts[_ss.UPSequentialSimulator._evaluate_effect] = kernel
+
+        def p_inv(L):
+            j = z3.Int(fresh_name("j"))
+            pre = unit._pre
+            none = L.reason is None
+            return [("no reason so far exactly when every precondition handled so far holds in the pre-state",
+                     z3.BoolVal(none) == z3.ForAll([j], z3.Implies(z3.And(0 <= j, j < zint(L._i)), INVOK(z3.Select(pre.arr, j), unit._state.z)))
+                     if isinstance(L.reason, (type(None),)) or not isinstance(L.reason, SUnion) else
+                     L.reason.is_none().z == z3.ForAll([j], z3.Implies(z3.And(0 <= j, j < zint(L._i)), INVOK(z3.Select(pre.arr, j), unit._state.z))))]
+        from pyvc.values import Opt as _Opt, Enum as _Enum
+        eng.loops[(QNGUC, 0)] = LoopSpec(p_inv, modifies=["c", "evaluated_cond", "unsatisfied_conditions", "reason"],
+                                         types={"c": FN02b, "evaluated_cond": Ref("BoolConstant02"), "unsatisfied_conditions": Seq(FN02b), "reason": _Opt(_Enum(_Reasons))})
+        # the invariants loop of this function also records the unsatisfied invariants and sets the reason
+        def v_inv(L):
+            j = z3.Int(fresh_name("j"))
+            r0 = L.head_reason if False else None
+            allok = z3.ForAll([j], z3.Implies(z3.And(0 <= j, j < zint(L._i)), INVOK(z3.Select(unit._invs.arr, j), unit._new.z)))
+            rn = L.reason.is_none().z if isinstance(L.reason, SUnion) else z3.BoolVal(L.reason is None)
+            pre_none = unit._reason_before(L)
+            return [("the reason is still none exactly when it was none before the loop and every invariant checked so far holds in the new state",
+                     rn == z3.And(pre_none, allok))]
+        eng.loops[(QNGUC, 4)] = LoopSpec(v_inv, modifies=["si", "unsatisfied_conditions", "reason"],
+                                         types={"si": FN02b, "unsatisfied_conditions": Seq(FN02b), "reason": _Opt(_Enum(_Reasons))})
+
+    def _reason_before(self, L):
+        r = L._pre.reason
+        return r.is_none().z if isinstance(r, SUnion) else z3.BoolVal(r is None)
+
+    def setup(self, eng, st):
+        args, kw, ctx = super().setup(eng, st)
+        self._pre = B.field_uf(eng, st, self._ga, "preconditions")
+        self._early = B.Bool.fresh("early_termination")
+        return args, {"early_termination": self._early, "full_check": True}, ctx
+
+    def post(self, eng, ctx, st, out):
+        if out[0] != "return":
+            if out[0] == "raise" and out[1].cls is _Invalid02:
+                st.oblige("UPInvalidActionError only when the action cannot be grounded", self._ga.z == GA02b.null)
+            return
+        r = eng.deref(st, out[1])
+        reason = r[1]
+        rn = reason.is_none().z if isinstance(reason, SUnion) else z3.BoolVal(reason is None)
+        j = z3.Int(fresh_name("j"))
+        pre_ok = z3.ForAll([j], z3.Implies(z3.And(0 <= j, j < self._pre.n), INVOK(z3.Select(self._pre.arr, j), self._state.z)))
+        inv_ok = z3.ForAll([j], z3.Implies(z3.And(0 <= j, j < self._invs.n), INVOK(z3.Select(self._invs.arr, j), self._new.z)))
+        conflict = bool(st.ghost.get("conflict"))
+        made = st.ghost.get("child_made", 0) == 1
+        st.oblige("no reason is reported only when the preconditions hold in the pre-state, the kernel reported no conflict and the state invariants hold "
+                  "in the state made from the reported values", z3.Implies(rn, z3.And(pre_ok, z3.BoolVal(not conflict and made), inv_ok)))
+        st.oblige("a reason is reported whenever one of the three fails", z3.Implies(z3.Not(rn), z3.Or(z3.Not(pre_ok), z3.BoolVal(conflict), z3.And(z3.BoolVal(made), z3.Not(inv_ok)))))
+
+
 UNITS = [Wrapper("_is_applicable", "exception mapping and verdict of the applicability query"),
          Wrapper("_apply", "None iff not applicable or a documented error; otherwise apply_unsafe's state"),
          Wrapper("_is_goal", "goal test = empty list of unsatisfied goals; the documented error counts as not a goal"),
-         ApplicableActionsStep(), ApplyUnsafe()]
+         ApplicableActionsStep(), ApplyUnsafe(), FullCheck()]
 LEVEL = "other"
 EXPLANATION = __doc__
 TRUSTED = ["apply_unsafe unit: the kernel _evaluate_effect by contract (may raise, report nothing, or report one (fluent, value); may extend assigned_fluent); "
